@@ -307,6 +307,13 @@ def execute(p, pd, req):
         M = p.calc_k0(silent=True, c=np.zeros(n), nx=req["num"][0], ny=req["num"][1], NLgeom=False, **kw)
     elif q == "k0":
         M = p.calc_k0(silent=True, **kw) if not req.get("nofin") else _fin(p.calc_k0(silent=True, finalize=False, **kw))
+    elif q == "kG0" and req.get("vialb") and not kw:
+        p.Nxx, p.Nyy, p.Nxy = (float(fr(x)) for x in req["N"])
+        try:
+            p.lb(sparse_solver=False, silent=True)       # constant-load route through the buckling analysis
+        except Exception:
+            pass
+        M = p.kG0
     elif q == "kG0":
         p.Nxx, p.Nyy, p.Nxy = (float(fr(x)) for x in req["N"])
         M = p.calc_kG0(silent=True, **kw) if not req.get("nofin") else _fin(p.calc_kG0(silent=True, finalize=False, **kw))
@@ -463,6 +470,14 @@ def observe_nl(p, pd, req, kw):
     elif q == "kT":
         M = p.calc_kT(c=c, nx=nx, ny=ny, Fnxny=Fn, silent=True, **k2)
         out = [[dyadic(v) for v in row] for row in M.toarray()]
+    elif req.get("vialb") and not req["NL"] and not k2 and nx is not None:
+        # the documented route of the state-based matrix: Panel.lb(c=..., nx, ny, Fnxny) feeds them into calc_kG0
+        try:
+            p.lb(c=c, nx=nx, ny=ny, Fnxny=Fn, sparse_solver=False, silent=True)
+        except Exception:
+            pass                       # the eigen-solution of an arbitrary state is not the subject here (C05)
+        M = p.kG0
+        out = [[dyadic(v) for v in row] for row in M.toarray()]
     else:
         M = p.calc_kG0(c=c, nx=nx, ny=ny, Fnxny=Fn, NLgeom=bool(req["NL"]), silent=True, **k2)
         out = [[dyadic(v) for v in row] for row in M.toarray()]
@@ -517,7 +532,7 @@ def observe_load(p, pd, req, kw):
 def jreq(r):
     out = dict(q=r["q"], size=r.get("size", 0), row0=r.get("row0", 0), col0=r.get("col0", 0))
     for k in ("N", "flow", "beta", "gamma", "aeromu", "c", "pts", "NL", "forces", "forcesInc", "inc", "cores", "num", "extra", "table",
-              "mach", "root", "rho", "V", "ainf", "via", "k0first", "taper", "route", "ctor", "nofin", "sweep", "dflt"):
+              "mach", "root", "rho", "V", "ainf", "via", "k0first", "taper", "route", "ctor", "nofin", "sweep", "dflt", "vialb"):
         if k in r:
             out[k] = r[k]
     return out
@@ -595,6 +610,7 @@ def random_req(rng, pd, q):
         r.update(size=size + off + rng.randint(0, 7), row0=off, col0=off)
     if q == "kG0":
         r["N"] = [rat(Fraction(rng.randint(-12, 12), 4)) for _ in range(3)]
+        r["vialb"] = rng.random() < 0.25 and not r.get("size")
     if q == "kA":
         r["flow"] = rng.choice("xy")
         r["beta"] = rat(Fraction(rng.randint(1, 40), 8))
@@ -635,6 +651,7 @@ def random_req(rng, pd, q):
             r["taper"] = [rat(1), rat(Fraction(rng.randint(-3, 3), 8)), rat(Fraction(rng.randint(-3, 3), 8))]
         if q == "kGc":
             r["NL"] = rng.random() < 0.5
+            r["vialb"] = rng.random() < 0.4
     if q in ("fext", "static"):
         def forces(n):
             return [[rat(Fraction(rng.randint(0, 8), 8) * a), rat(Fraction(rng.randint(0, 8), 8) * b)] +
@@ -758,6 +775,8 @@ def run_prop(prop, qs, tier, seed, build, nrand_quick=40, nrand_thorough=600, wh
             if r["q"] in ("fint", "kT", "kGc"):
                 r["extra"] = [k % 3, 3 + (k % 2)]          # different orders along x and y
                 r["dflt"] = (k % 2 == 0)
+                if r["q"] == "kGc" and k % 3 == 0:
+                    r["vialb"], r["dflt"] = True, False
                 if pd["n"] == 5:                            # exactly the exactness bound of each direction, by default
                     r["extra"], r["dflt"] = [0, 0], True
             if k % 2 == 1 and r["q"] in STUDY_QS and not r.get("coff"):
